@@ -36,7 +36,10 @@ from arim.core import Time
 
 drv = arimgen.Driver(chk.ocaml_driver("C11"))
 rng = chk.rng
-Q = chk.tier == "quick"
+# second tie: the delay split (nearest sample + signed remainder) is cut out of the current source, translated and
+# checked convertible with Model.Signal.delay_idx / delay_rem; a broken tie deepens the run (thorough sizes)
+_ties = chk.translation_tie()
+Q = chk.tier == "quick" and all(v == "ok" for v in _ties.values())
 evaluations = 0
 nontrivial = set()
 samples = []
